@@ -1,4 +1,5 @@
 import VivProofs.SchedRun
+import VivProofs.SchedReplay
 /-!
 # C01 — every process update is applied exactly once, at the end of its interval
 
@@ -90,6 +91,42 @@ theorem nothing_pending_after_run (c : Cfg) (hb : PosBeh c.beh) (interval : Nat)
   · intro pf hpf u hu
     rw [hnp pf hpf] at hu; cases hu
 
+/-- **The state is the sum of what was applied**: in every reachable state the store is the
+initial state with exactly the applications recorded in the log replayed in log order — nothing
+else ever changes it (in particular no returned update that was not applied, and no update twice:
+by `exactly_once` the applications are exactly the returned updates, one each). -/
+theorem state_is_replay_of_applied (c : Cfg) (hb : PosBeh c.beh) (t0 : Int) (pids : List Pid)
+    (layers : List (List Sid)) (store : Store) (calls : List (Nat × Bool))
+    (hpos : ∀ cf ∈ calls, 0 < cf.1) (s' : St)
+    (hrun : runCalls c calls (init c t0 pids layers store) = some s') :
+    s'.store = replay store s'.log ∧
+    ∀ w, readVar s'.store w = readVar store w + (s'.log.map (fun e => deltaOf w (updOf e))).sum := by
+  have h := runCalls_rep c hb t0 pids layers store calls hpos s' hrun
+  refine ⟨h.1, fun w => ?_⟩
+  rw [h.1, readVar_replay]
+
+/-- **Observable form**: take any row of any reachable history, emitted at time `T`.  The row is
+the flagged part of the initial state with the updates applied *before it in the log* replayed;
+each accumulating variable therefore reads its initial value plus the sum of those updates' deltas;
+every process update applied before the row was applied at a time `≤ T`, every one applied after
+it at a time `> T` — and by `applied_on_time` the time of an application is the end of the
+interval the update was computed for.  So the row at `T` holds exactly the updates whose interval
+ended at or before `T`. -/
+theorem observable_form (c : Cfg) (hb : PosBeh c.beh) (t0 : Int) (pids : List Pid)
+    (layers : List (List Sid)) (store : Store) (calls : List (Nat × Bool))
+    (hpos : ∀ cf ∈ calls, 0 < cf.1) (s' : St)
+    (hrun : runCalls c calls (init c t0 pids layers store) = some s')
+    (pre post : List Ev) (T : Int) (row : Store) (hsplit : s'.log = pre ++ Ev.emit T row :: post) :
+    row = emitRow c.flagged (replay store pre) ∧
+    (∀ w, readVar (replay store pre) w =
+      readVar store w + (pre.map (fun e => deltaOf w (updOf e))).sum) ∧
+    (∀ p t due u, Ev.apply p t due u ∈ pre → t ≤ T) ∧
+    (∀ p t due u, Ev.apply p t due u ∈ post → T < t) := by
+  obtain ⟨_, h2, st, h3, _⟩ := runCalls_rep c hb t0 pids layers store calls hpos s' hrun
+  rw [hsplit] at h2 h3
+  have hs := tw_split pre post T row st h3
+  exact ⟨rowsOK_split _ _ pre post T row h2, fun w => readVar_replay store pre w, hs.1, hs.2⟩
+
 def isInvoke : Ev → Bool
   | .invoke .. => true
   | _ => false
@@ -113,6 +150,14 @@ example :
     ((runCalls exCfg [(6, true)] (init exCfg 0 [["a"], ["b"]] [] [("x", 0)])).map
       (fun s => (wfLog ["a"] s.log, wfLog ["b"] s.log, readVar s.store "x"))) =
       some (some (3, none), some (2, none), 10 + 11 + 12 + 100 + 101) := by
+  rfl
+
+/-- non-vacuity of `observable_form`: the history of the run above has 7 rows (times 0,2,3,4,6 …),
+and its last row holds the sum of all five updates -/
+example :
+    ((runCalls exCfg [(6, true)] (init exCfg 0 [["a"], ["b"]] [] [("x", 0)])).map
+      (fun s => s.log.filterMap (fun e => match e with | .emit t r => some (t, r) | _ => none))) =
+      some [(0, [("x", 0)]), (2, [("x", 10)]), (3, [("x", 110)]), (4, [("x", 121)]), (6, [("x", 234)])] := by
   rfl
 
 end VivProps.C01
